@@ -653,7 +653,7 @@ class Blowups(Sub):
         # a long column handed in as rows of one cell (what a range listener delivers): time must grow with its length, not
         # with its square - and the interpreter must survive it
         for fn in ('SUM', 'COUNT', 'MAX', 'AND', 'CONCATENATE', 'AVERAGE'):
-            for rows in (20000, 200000):
+            for rows in (20000, 50000):
                 yield ['wide', fn, rows]
 
     def guarded(self, env, p, text, per_char=0):
